@@ -142,7 +142,13 @@ def flowAnswer (toks : List String) (membership : Bool) : String :=
       | some (acc, result) =>
         let flows := fixOrder acc
         -- every flow's sink map has its own iteration order: all 3^k outcomes
-        let cands := ((List.range (3 ^ (min flows.length 5))).map (runLine p w flows)).eraseDups
+        -- only flows whose sink holds both kinds of key have more than one outcome
+        let anySplit := flows.any fun fl =>
+          let t := sinkAgg p (tagFlow p w fl)
+          t.any (fun e => e.1.zero) && t.any (fun e => !e.1.zero)
+        let cands := if anySplit then
+            ((List.range (3 ^ (min flows.length 5))).map (runLine p w flows)).eraseDups
+          else [runLine p w flows 0]
         if membership then
           let r := " ".intercalate result
           if cands.contains r then "in" else "out " ++ " || ".intercalate cands
